@@ -94,6 +94,9 @@ def cases(tier):
         {"kind": "fixed", "h": 0.1, "n": 5},
         {"kind": "credit", "h": 0.1, "a_frac": 0.5, "symmetric": True},
     ] + ([{"kind": "credit", "h": 0.1, "a_frac": [0.4, 0.6], "symmetric": False}] if thorough else [])
+    # the only constructor that gives the coordinates different axes (one threshold per name): also in the quick tier
+    out.append({"sub": "kernelnd", "dim": 2, "model": cms[0], "grid": {"kind": "credit", "h": 0.1, "a_frac": [0.4, 0.6], "symmetric": False},
+                "level": 1, "method": "INVERSION"})
     for cm in cms:
         for g in grids2:
             for level in ((1, 2) if (thorough or g["kind"] == "fixed" and g["n"] == 3) else (1,)):
